@@ -922,26 +922,24 @@ def thread_ids(R, res, unit):
     fparam = [p for p in ps if p.get("t") == R.F["t"]]
     key = "mju_dispatch:serial-fallback"
     found = False
+    from .c26 import counted_loop
+    from .. import norm
+    fbody = cir.body(fn)
     for f in cir.walk(fn):
-        if f.get("k") != "ForStmt":
+        if f.get("k") not in ("ForStmt", "WhileStmt"):
             continue
-        ks = list(cir.kids(f)) + [None] * 5
-        init, _, cond, inc, body = ks[:5]
+        body = cir.kids(f)[-1]
         calls = [c for c in cir.walk(body) if c.get("k") == "CallExpr" and fparam and
                  cxx.ref_id(cir.kids(c)[0]) == fparam[0].get("id")]
         if not calls:
             continue
         found = True
-        iv = [d for d in cir.walk(init) if d.get("k") == "VarDecl"] if init else []
-        i0 = [c2 for c2 in cir.kids(iv[0]) if c2 is not None] if iv else []
-        cs = _cmp_sides(cond) if cond is not None else None
-        incs = cir.strip(inc)
-        ntask_params = [p for p in ps if cs and cxx.ref_id(cs[2]) == p.get("id")]
         a = cir.args(calls[0])
-        ok = bool(iv) and i0 and cxx.const_int(i0[-1]) == 0 and cs and cs[0] == "<" and \
-            cxx.ref_id(cs[1]) == iv[0].get("id") and bool(ntask_params) and incs is not None and \
-            incs.get("k") == "UnaryOperator" and incs.get("op") == "++" and len(calls) == 1 and \
-            len(a) == R.nparams and cxx.ref_id(a[R.task_pos]) == iv[0].get("id") and cxx.const_int(a[R.thread_pos]) == 0
+        ivid = cxx.ref_id(a[R.task_pos]) if len(a) == R.nparams else None
+        cl = counted_loop(fbody, f, ivid) if ivid is not None else {"problems": ["task id is not a local"], "start": None, "bound": None}
+        ntask_params = [p for p in ps if cl.get("bound") == p.get("n") and "int" in (p.get("t") or "")]
+        ok = ivid is not None and not cl["problems"] and cl["start"] == "0" and bool(ntask_params) and len(calls) == 1 and \
+            cxx.const_int(a[R.thread_pos]) == 0 and not norm.guards(body, calls[0])
         if ok:
             res.ok("R-TASK-CALL", key, {"file": TU, "line": f.get("line")})
         else:
